@@ -61,7 +61,13 @@ def install(E, W, keep):
                                                     dtype=object).flat)
         key = (model.map.name, mkey, skey, sfield._frequency, float(tol),
                sfield.grid.shape_cells)
-        W.calls.append(dict(tol=float(tol), key=hash(key)))
+        # the initial guess handed to the solver (None or a field): part of
+        # the solver's INPUT (real solves depend on it at tolerance level)
+        gkey = None
+        if efield is not None:
+            gkey = hash(tuple(_key_of(v) for v in np.asarray(
+                efield.field, dtype=object).flat))
+        W.calls.append(dict(tol=float(tol), key=hash(key), guess=gkey))
         hit = W.cache.get(key)
         if hit is None:
             # same value, different syntax?  ask the solver (the function
